@@ -93,7 +93,7 @@ CONTRACTS = [
                  C("spawned_exactly_one_process", "g_sp_count == old(g_sp_count) + 1 and result.pid is not None and g_sp_last is not None and some(result.pid) == some(g_sp_last).pid", "C07", "C09"),
                  C("bash_in_the_cond_file_directory", "g_sp_exe == '/bin/bash' and g_sp_shell and g_sp_session and g_sp_cwd == self._working_path and g_sp_cmd == self._run", "C07"),
                  C("name_and_output_dir_exported", "g_sp_env['COND_NAME'] == self._identifier._name and g_sp_env['COND_OUT'] == Path_str(self._output_path)"
-                                                   " and (self._output_path in g_dirs)", "C07"),
+                                                   " and (self._output_path in g_dirs)", "C07", "C08"),
                  C("deps_exported_in_declared_order", "g_sp_env['COND_DEPS'] == join_strs(':', self._deps_output_paths)", "C07"),
                  C("slot_exported_iff_assigned", "('COND_SLOT' in g_sp_env) == (slot is not None) and implies(slot is not None, g_sp_env['COND_SLOT'] == int_str(some(slot)))", "C04"),
                  C("teed_iff_recorded_and_sequential", "(g_sp_stdout is not None and some(g_sp_stdout) == ext_subprocess_PIPE) == (self._record_output and slot is None)", "C10"),
@@ -110,7 +110,10 @@ CONTRACTS = [
                                       " (some(g_sp_last).pid in g_killed or Gone(some(g_sp_last).pid)))", "C16"),
                                     ],
                  # only an unexpected failure of getpgid/killpg (not 'no such process') may replace the abort
-                 "OSError+": [C("not_a_vanished_process", "exc.errno != ext_errno_ESRCH and exc.errno != ext_errno_ECHILD", "C16")],
+                 "OSError+": [C("not_a_vanished_process", "exc.errno != ext_errno_ESRCH and exc.errno != ext_errno_ECHILD", "C16"),
+                              # without an abort every failure to launch is reported as a failure of THIS task (TaskFailed), so that
+                              # the executor can skip its dependents and go on with the independent tasks
+                              C("a_launch_failure_never_escapes_as_a_raw_oserror", "abort_pending()", "C03", "C16")],
              },
              ghost=[Ghost("self.g_started = True", before="process = None")]),
 
